@@ -9,6 +9,7 @@ import (
 	"sort"
 	"strings"
 	"testing/fstest"
+	"time"
 
 	"github.com/titpetric/vuego"
 )
@@ -120,8 +121,76 @@ type c10Engine struct {
 }
 
 func c10NewEngine() *c10Engine {
-	fs := c10FS()
-	return &c10Engine{vue: vuego.NewVue(fs), tpl: vuego.NewFS(fs)}
+	return c10EngineOver(c10FS())
+}
+
+// engines carry a node processor with per-render state (it numbers list items and headings)
+func c10EngineOver(fs fstest.MapFS) *c10Engine {
+	return &c10Engine{vue: vuego.NewVue(fs).RegisterNodeProcessor(&c09Numberer{}), tpl: vuego.NewFS(fs, vuego.WithProcessor(&c09Numberer{}))}
+}
+
+// The template files are inputs of a call too: after a file was replaced - by a newer or by an OLDER version
+// (a roll-back, a restored backup, an override removed from an upper layer) - a long-lived engine renders
+// what a fresh engine renders.
+func c10FileEdits(r *Run) {
+	t1 := time.Date(2026, 3, 1, 12, 0, 0, 0, time.UTC)
+	type edit struct{ file, from, to string }
+	edits := []edit{
+		{"fm.vuego", "<p>{{ who }}", "<p>v2 {{ who }}"},
+		{"layout.vuego", "<h1>{{ title }}</h1>", "<h1>v2 {{ title }}</h1>"},
+		{"layouts/post.vuego", "<article ", "<article data-v2 "},
+		{"layouts/base.vuego", "<main ", "<main data-v2 "},
+		{"comp/card.vuego", "<h2>{{ title }}</h2>", "<h2>v2 {{ title }}</h2>"},
+		{"include.vuego", "<b>{{ who }}</b>", "<b>v2 {{ who }}</b>"},
+	}
+	progs := []c10Prog{
+		{name: "vue:fm.vuego", entry: "VueRender", page: "fm.vuego", data: c10Data},
+		{name: "load:fm.vuego", entry: "LoadRender", page: "fm.vuego", data: c10Data},
+		{name: "load:layout.vuego", entry: "LoadRender", page: "layout.vuego", data: c10Data},
+		{name: "vue:include.vuego", entry: "VueRender", page: "include.vuego", data: c10Data},
+		{name: "load:include.vuego", entry: "LoadRender", page: "include.vuego", data: c10Data},
+	}
+	for _, p := range progs {
+		for _, e := range edits {
+			for _, dir := range []string{"newer", "older", "much-older", "newer-then-back"} {
+				fs := c10FS()
+				for _, f := range fs {
+					f.ModTime = t1
+				}
+				if !strings.Contains(string(fs[e.file].Data), e.from) {
+					panic("c10FileEdits: " + e.file + " does not contain " + e.from)
+				}
+				eng := c10EngineOver(fs)
+				o0, e0, _ := eng.run(p)
+				o0b, _, _ := eng.run(p) // warm
+				steps := []time.Time{t1.Add(time.Hour)}
+				switch dir {
+				case "older":
+					steps = []time.Time{t1.Add(-time.Hour)}
+				case "much-older":
+					steps = []time.Time{t1.Add(-400 * 24 * time.Hour)}
+				case "newer-then-back":
+					steps = []time.Time{t1.Add(time.Hour), t1.Add(-time.Minute)}
+				}
+				orig := string(fs[e.file].Data)
+				for si, mt := range steps {
+					content := strings.Replace(orig, e.from, e.to, 1)
+					if si == 1 {
+						content = strings.Replace(orig, e.from, strings.Replace(e.to, "v2", "v3", 1), 1)
+					}
+					fs[e.file] = &fstest.MapFile{Data: []byte(content), ModTime: mt}
+					got, gerr, _ := eng.run(p)
+					want, werr, _ := c10EngineOver(fs).run(p)
+					r.Eval(fmt.Sprintf("edit:%s:%s:%s:%d", p.name, e.file, dir, si), true, nil)
+					r.Count("stream:file-edits(oracle only)")
+					if got != want || gerr != werr {
+						r.Fail("after a template file was replaced, a long-lived engine renders differently from a fresh engine", map[string]string{"oracle": "edit-vs-fresh", "direction": dir, "file": e.file},
+							map[string]any{"prog": p.name, "edited_file": e.file, "mtime_direction": dir, "step": si, "long_lived": got, "long_lived_err": gerr, "fresh": want, "fresh_err": werr, "before_edit": o0, "before_edit_err": e0, "warm_equals_cold": o0 == o0b})
+					}
+				}
+			}
+		}
+	}
 }
 func deepCopy(v any) any {
 	b, _ := json.Marshal(v)
@@ -181,6 +250,7 @@ func runC10(r *Run) {
 		"every program on a fresh engine is the reference; each is rendered 20 times (thorough 60) on one long-lived engine, after every other program (all ordered pairs) and inside random sequences of length <= 8, failing programs included; " +
 		"caller data is printed before and after every call; the template cache is dumped after the first and after the last render; non-trivial: the program has >= 2 map entries / bound attributes / front-matter, or follows a different program")
 	r.Assume("this stream compares the implementation with itself (bytes); the Coq model contributes the order-independence and pool theorems and the regenerated table of map-iteration sites")
+	c10FileEdits(r)
 	progs := c10Catalogue()
 	ref := map[string][2]string{}
 	for _, p := range progs {
